@@ -74,6 +74,8 @@ def mat(x):
         return x
     if isinstance(x, (A.Array1D, A.Array2D)):
         return x
+    if isinstance(x, tuple):
+        return tuple(mat(y) for y in x)
     if hasattr(x, "__iter__"):
         return [mat(y) for y in x]
     return x
@@ -296,6 +298,7 @@ def install(ctx):
             _orig[name] = getattr(C, name)
             rebind(_orig[name], functools.wraps(_orig[name])(_mk_helper(name, sem, kind)))
         for cls in (A.BoolArray1D, A.BoolArray2D):
+            _mk_method(cls, "count_true", "count_true", _count, "int")
             _mk_method(cls, "fold_or", "fold_or", _or, "bool")
             _mk_method(cls, "fold_and", "fold_and", _and, "bool")
         for cls in (A.IntArray1D, A.IntArray2D):
